@@ -38,13 +38,18 @@ class Pipe(Slice):
         prog = gen_rv.gen_program(rng, maxlen=12 if rng.random() < 0.6 else 30)
         dc = gen_rv.gen_cache_cfg(rng) if self.with_caches(rng) else []
         ic = gen_rv.gen_cache_cfg(rng) if self.with_caches(rng) else []
-        return {"spec": gen_rv.gen_state_spec(rng, prog, dc, ic), "steps": 600}
+        case = {"spec": gen_rv.gen_state_spec(rng, prog, dc, ic), "steps": 600}
+        if rng.random() < 0.15:     # a second live simulation (either mode) stepped in between
+            case["other"] = [gen_rv.gen_state_spec(rng, gen_rv.gen_program(rng, maxlen=12)),
+                             rng.choice(["single_stage_pipeline", "five_stage_pipeline"])]
+        return case
 
     def with_caches(self, rng):
         return False
 
     def run(self, case, model):
-        it = impl_trace(case["spec"], case["steps"], mode="five_stage_pipeline", hazards=self.hazards, extra=pipe_extra)
+        it = impl_trace(case["spec"], case["steps"], mode="five_stage_pipeline", hazards=self.hazards, extra=pipe_extra,
+                        other=case.get("other"))
         mt = model_trace(model, 2, case["spec"], case["steps"], 1 if self.hazards else 0)
         d = compare_traces(it, mt, self.names, fault_names=["regs", "mem", "out"])
         if d is None:
